@@ -7,6 +7,40 @@ HERE = os.path.dirname(os.path.dirname(os.path.abspath(__file__)))
 sys.path.insert(0, HERE)
 
 
+def replay(pid: str, path: str) -> int:
+    """Re-decide ONE recorded violation on the current tree: the check is run again (quick tier, outputs to a scratch directory) and the
+    obligation named in the replay file is looked up among its violations.  exit 1 + VIOLATION line if it fails again, 0 if it does not."""
+    import json
+    import shutil
+    import subprocess
+    import tempfile
+
+    body = json.load(open(path, encoding="utf-8"))
+    key = body.get("obligation")
+    print(f"replaying {pid} obligation {key!r}: {str(body.get('what'))[:300]}")
+    for k in ("input", "input_with_extras", "history", "native_replay", "replay"):
+        if k in body:
+            print(f"  {k}: {json.dumps(body[k], default=str)[:600]}")
+    scr = tempfile.mkdtemp(prefix="verif-replay-")
+    try:
+        env = dict(os.environ, VERIF_EVIDENCE_DIR=os.path.join(scr, "ev"), VERIF_REPLAY_DIR=os.path.join(scr, "rp"))
+        p = subprocess.run([sys.executable, os.path.abspath(__file__), pid, "--tier", "quick"], env=env, capture_output=True, text=True)
+        lines = p.stdout.splitlines()
+        again = [i for i, l in enumerate(lines) if l.startswith("  obligation: ") and l.split("obligation: ", 1)[1] == key]
+        if again:
+            tail = " no-failing-input-found" if lines[again[0] - 1].endswith("no-failing-input-found") else ""
+            print(f"VIOLATION property={pid} replay={path}{tail}")
+            print(lines[again[0] + 1] if again[0] + 1 < len(lines) else "")
+            return 1
+        if p.returncode not in (0, 1):
+            print(f"CHECKER-ERROR property={pid} the check exits {p.returncode} on the current tree; the obligation could not be re-decided")
+            return p.returncode
+        print(f"not reproduced: obligation {key!r} is discharged on the current tree (the check exits {p.returncode})")
+        return 0
+    finally:
+        shutil.rmtree(scr, ignore_errors=True)
+
+
 def main():
     if len(sys.argv) < 2:
         print("usage: check <ID> [--tier quick|thorough] [--replay FILE]")
@@ -19,11 +53,7 @@ def main():
         return 3
     try:
         if "--replay" in sys.argv:
-            path = sys.argv[sys.argv.index("--replay") + 1]
-            if hasattr(mod, "replay"):
-                return int(mod.replay(path))
-            print(open(path).read())
-            return 0
+            return replay(pid, sys.argv[sys.argv.index("--replay") + 1])
         return int(mod.main(sys.argv[2:]))
     except Exception:
         traceback.print_exc()
